@@ -7,7 +7,8 @@ import (
 
 // canon sorts every array recursively by the canonical encoding of its elements: every array
 // in the answers compared here (locations, highlights, symbols and their children, completion
-// items, diagnostics, related information) is an unordered collection in the protocol.
+// items, diagnostics, related information) is an unordered collection in the protocol.  The one
+// exception is made in NormResult: workspace/symbol, which the server sorts and cuts itself.
 func canon(v interface{}) interface{} {
 	switch x := v.(type) {
 	case []interface{}:
